@@ -26,7 +26,7 @@ CFG = {
     text="Theorem: equal root digests imply equal content for any two trees whose page pre-images are collision free (Merkle induction over lt-child, node and high-page tokens); corollaries for histories and for a single upsert. SipHash itself is modelled, not verified.",
     assumptions=[A_TOTAL, A_LVL, A_CF, A_MODEL]),
  "C04": dict(streams=S("dsmall","drand"), level="proof",
-    theorems=[P+"C04", P+"C04_some_direction", P+"C04_start_held"],
+    theorems=[P+"C04", P+"C04_some_direction", P+"C04_start_held", P+"C04_histories"],
     text="Theorems (all pairs of hashed real trees: any contents, spans nested / partially overlapping / disjoint / empty, any level structure): both diffs empty implies equal content; if contents differ some direction reports a range; every reported range starts at a key the peer holds. Tied by exhaustive ordered-pair streams (all contents over 4-5 keys x all level assignments) and the implementation-side oracle.",
     assumptions=[A_TOTAL, A_LVL, A_CF, A_MODEL]),
  "C05": dict(streams=S("dsmall","drand","ssmall","srand"), level="proof",
@@ -38,7 +38,7 @@ CFG = {
     text="Join merge (peer-wins with >= 3 replicas is refuted by a theorem); pulls may be atomic OR split into a plan and a later fetch of stale/arbitrary ranges (C06_*_stale); full in the quantifiers it covers: for ANY number of replicas and ANY schedule of writes and pulls (theorem, unbounded): no panic and every replica's tree mirrors its store at every step whatever its cache state (refinement); under join nothing is lost or invented (safety); after writes stop, n*|ops|+1 sweeps pulling between all ordered pairs in any order bring every replica to the join of everything written with equal root hashes (liveness). Peer-wins with >= 3 replicas admits a fair schedule that never converges: proved as a theorem on the model (C06_peerWins_three_replicas_counterexample), so that clause cannot hold for that merge; two-replica peer-wins is C05. In-flight (planned, later applied) pulls are also exercised on the real code by the srand stream.",
     assumptions=[A_TOTAL, A_LVL, "NoCollisions", "join (max) merge; values identified with their digests", A_MODEL]),
  "C07": dict(streams=S("dsmall","drand"), level="proof",
-    theorems=[P+"C07", P+"C07_empty_local"],
+    theorems=[P+"C07", P+"C07_empty_local", P+"C07_histories"],
     text="Theorems: under the span condition every peer entry the local tree lacks or holds with another digest lies in a returned range (soundness of every consistent mark via Merkle injectivity + contiguity of sub-pages; the whole peer span is marked inconsistent at the first iteration; reduce keeps bad minus good); an empty replica obtains the whole span.",
     assumptions=[A_TOTAL, A_LVL, A_CF, A_MODEL]),
  "C08": dict(streams=S("dsmall","drand","tsmall"), level="proof",
